@@ -70,7 +70,7 @@ class WfScenario(Scenario):
     def __init__(self, name, yaml_text, wf='wf', wf_input=None, results=None,
                  params=None, overrides=None, scheduler='legacy',
                  workbook=False, meta=None, expect_paused=False,
-                 n_sched=1, clear_caches=False):
+                 n_sched=1, clear_caches=False, rp=False):
         self.name = name
         self.yaml = yaml_text
         self.wf = wf
@@ -84,6 +84,7 @@ class WfScenario(Scenario):
         self.expect_paused = expect_paused
         self.n_sched = n_sched
         self.clear_caches = clear_caches
+        self.rp = rp            # transactions may overlap (env._rp_point)
 
     def spec(self):
         return ('mc.wfscn', type(self).__name__, self.kwargs())
@@ -95,13 +96,15 @@ class WfScenario(Scenario):
                     overrides=[list(o) for o in self.overrides],
                     scheduler=self.scheduler, workbook=self.workbook,
                     meta=self.meta, expect_paused=self.expect_paused,
-                    n_sched=self.n_sched, clear_caches=self.clear_caches)
+                    n_sched=self.n_sched, clear_caches=self.clear_caches,
+                    rp=self.rp)
 
     def describe(self):
         return {'name': self.name, 'workflow': self.yaml,
                 'input': self.wf_input, 'results': self.results,
                 'params': self.params, 'scheduler': self.scheduler,
-                'overrides': [list(o) for o in self.overrides]}
+                'overrides': [list(o) for o in self.overrides],
+                'transactions_may_overlap_before_their_first_write': self.rp}
 
     def setup(self):
         env.reset(results=self.results, overrides=self.overrides,
@@ -126,6 +129,7 @@ class WfScenario(Scenario):
             env.with_ctx(lambda: env.wf_service.create_workflows(self.yaml))
         env.W.clear_caches = self.clear_caches
         self.start()
+        env.W.rp = self.rp
 
     def start(self):
         env.post('start_workflow', wf_identifier=self.wf,
